@@ -27,8 +27,16 @@ Theorem C08_usable_after : forall o fuel e x r e',
 Proof. exact CrashProofs.usable_after. Qed.
 
 (* converting a host object never panics (see C04) *)
-Theorem C08_conversion_never_panics : forall o fuel h, to_object o fuel h <> Some CPanic.
+Theorem C08_conversion_never_panics : forall o fuel depth h, to_object o fuel depth h <> Some CPanic.
 Proof. exact ReflectProofs.conversion_never_panics. Qed.
+
+(* ... and it is bounded: a map nested deeper than the machine's nesting limit is not followed, it reads
+   as null (a Go map can contain itself) *)
+Theorem C08_map_nesting_bounded : forall o fuel depth l kk l',
+  max_call_depth <= depth ->
+  to_object o (S fuel) depth (HMapIface l) = Some (CVal VNull) /\
+  to_object o (S fuel) depth (HMapOther kk l') = Some (CVal VNull).
+Proof. exact ReflectProofs.too_deep_is_null. Qed.
 
 (* tokenisation terminates for every input *)
 Theorem C08_lexer_terminates : forall s : str, lex s <> None.
